@@ -444,6 +444,33 @@ func init() {
 					kC02NonInt.Do(c, c02NonInt{P: p, F: f, Input: in, Alt: alt})
 				}
 			}
+			// re-embedding through slices: the update function receives a slice of an array an earlier path has already
+			// rewritten (and which the implementation may therefore modify in place) and returns an array of the same
+			// length that contains that slice; every atom first, then a (nested) slice path, in every order
+			{
+				slicePaths := []string{".[1:][1:]", ".[1:][:1]", ".[:2][1:]", ".[0:2]", ".[1:]", ".[1:][1:][0:]", ".a[1:][1:]", ".[-2:][0:]", ".[1:][1:2]", ".[:3][1:][0:1]", ".[2:]", ".[0][1:]", ".[1:][0][0:]", ".a[1:]", ".[1:][1:][1:]"}
+				embed := []string{". as $s | map($s)", "[., .]", "[.]", "[., 1, .]", ". as $s | map([$s])", ".[0] = .", "[.[1:], .]", ". as $s | [range(length) | {k: $s}]", ". as $s | .[-1] |= $s", "[., .][:length]"}
+				ins := []any{
+					[]any{[]any{3, 1, 2}, []any{3}, []any{1, 2}, []any{[]any{3, 1, 2}}},
+					[]any{0, 1, 2, 3},
+					map[string]any{"a": []any{0, []any{1}, 2, 3}, "b": 1},
+					[]any{[]any{0, 1, 2}, []any{2, 3}, []any{4, 5}},
+				}
+				firsts := append(append([]string{}, atoms...), ".[3][0]", ".[-1][-1]", ".[2][0]", ".a[1][0]")
+				for _, p1 := range firsts {
+					for si, p2 := range slicePaths {
+						for fi, f := range embed {
+							if c.Quick() && (si+fi)%2 == 1 {
+								continue
+							}
+							for oi, p := range []string{combo(p1, p2), combo(p2, p1), combo(p2, p2), combo(p1, p2, p2)} {
+								in := ins[(si+fi+oi)%len(ins)]
+								kC02Pair.Do(c, c02Pair{L: p + " |= (" + f + ")", R: redModify(p, f), Input: run.TV{V: in}, What: "|=", P: ""})
+							}
+						}
+					}
+				}
+			}
 			// all ordered pairs of atoms, every sub-check family sampled per pair
 			reps := c.N(6, 24)
 			for _, a := range atoms {
@@ -479,6 +506,12 @@ func init() {
 				src := []string{"[paths]", "[paths(type == \"number\")]", "[paths(" + g.PathProgram(0) + " != null)]?", "pick(" + p + ")", "to_entries", "with_entries(.value |= (" + f + "))", "[tostream]", "map_values(" + f + ")", "del(" + p + ")",
 					"[path(" + p + ")]", "(" + p + ") |= (" + f + ")", "(" + p + ") = (" + f + ")", "[leaf_paths]?", "delpaths([path(" + p + ")])", "fromstream(tostream)", "[getpath(path(" + p + "))]", "to_entries | from_entries", "(" + p + ") += 1", "[.. | select(type == \"number\")] | length", "walk(" + f + ")?"}[r.IntN(20)]
 				kC01x.Do(c, c01Case{Src: src, Input: pickIn()})
+			}
+			// value operands (bindings, destructuring, indices, conditions, arguments) in the middle of path expressions
+			for _, src := range gen.PathBindPrograms() {
+				for _, in := range gen.PathBindInputs() {
+					kC01x.Do(c, c01Case{Src: src, Input: run.TV{V: in}})
+				}
 			}
 			// primitives
 			for i, n := 0, c.N(1500, 30000); i < n; i++ {
